@@ -1125,3 +1125,131 @@ Proof.
         assert (Hsw : snap_written (nlog n)) by (unfold snap_written; rewrite Es; exact I).
         destruct (u_entries (unst (nlog n))) as [|e0 t0]; split; try exact Hsw; [congruence|discriminate].
 Qed.
+
+(* (C) storage writes *)
+Lemma nlog_set_store n m : nlog (set_store_node n m) = set_store (nlog n) m.
+Proof. reflexivity. Qed.
+
+Lemma good_store a n m ph :
+  Good a n ->
+  RepInv false (set_store (nlog n) m) ->
+  first_of m <= rn_commit_since_index n + 1 ->
+  (forall rr i t, In rr (match ph with Writing _ WSnap => removelast (rn_records n) | _ => rn_records n end) ->
+                  rr_snapshot rr = Some (i, t) -> i < first_of m) ->
+  phase_ok (with_obs a no_out m ph (a_applied a)) (set_store_node n m) ->
+  Good (with_obs a no_out m ph (a_applied a)) (set_store_node n m).
+Proof.
+  intros G HR Hf Hrec Hph. destruct (g_good a n G) as (A1 & A2 & A3).
+  constructor; cbn [a_store a_phase a_hist a_applied a_got with_obs]; rewrite ?nlog_set_store;
+    cbn [set_store store unst committed applied max_apply_unpersisted_log_limit].
+  - split; [exact A1|]. split; [exact HR|exact A3].
+  - reflexivity.
+  - destruct (g_hist a n G) as [H1 H2]. unfold hist_step, no_out. cbn [fst snd]. rewrite app_nil_r.
+    split; [exact H1|exact H2].
+  - exact (g_applied a n G).
+  - exact (g_app_le a n G).
+  - exact (g_csi_commit a n G).
+  - exact (g_csi_stable a n G).
+  - exact (g_limit a n G).
+  - exact Hf.
+  - exact (g_snap_pos a n G).
+  - rewrite orb_false_r. exact (g_got a n G).
+  - exact Hrec.
+  - exact Hph.
+Qed.
+
+Lemma snap_written_meta l m : meta_write (store l) m -> snap_written l -> snap_written (set_store l m).
+Proof.
+  intros (A & B & C0 & _). unfold snap_written. cbn [set_store store unst].
+  assert (Hf : first_of m = first_of (store l)) by (unfold first_of; rewrite A, B; reflexivity).
+  destruct (u_snapshot (unst l)); [|auto]. rewrite A, B, C0, Hf. auto.
+Qed.
+
+Lemma ents_written_meta l m : meta_write (store l) m -> ents_written l -> ents_written (set_store l m).
+Proof.
+  intros (A & B & _). unfold ents_written. cbn [set_store store unst].
+  assert (Hf : first_of m = first_of (store l)) by (unfold first_of; rewrite A, B; reflexivity).
+  rewrite A, Hf. auto.
+Qed.
+
+Lemma good_meta a n m :
+  Good a n -> meta_write (a_store a) m ->
+  Good (with_obs a no_out m (a_phase a) (a_applied a)) (set_store_node n m).
+Proof.
+  intros G Hmw. rewrite (g_store a n G) in Hmw. pose proof Hmw as (A & B & C0 & D).
+  assert (Hf : first_of m = first_of (store (nlog n))) by (unfold first_of; rewrite A, B; reflexivity).
+  apply good_store; [exact G| | | |].
+  - exact (proj1 (write_meta_pres false _ _ A B C0 D (Good_NLI a n G))).
+  - rewrite Hf. exact (g_first a n G).
+  - rewrite Hf. intros rr i t Hin. apply (g_recs a n G rr i t). unfold recs_done.
+    destruct (a_phase a) as [|rd [| |]]; exact Hin.
+  - pose proof (g_phase a n G) as Hph. unfold phase_ok in *. cbn [a_phase with_obs].
+    destruct (a_phase a) as [|rd st]; [exact I|]. rewrite nlog_set_store.
+    cbn [set_store unst]. destruct Hph as (H1 & H2 & H3 & H4 & H5 & H6 & H7).
+    splits; auto. destruct st.
+    + exact H7.
+    + destruct H7 as [H7 H8]. split; [apply snap_written_meta; assumption|exact H8].
+    + destruct H7 as [H7 H8]. split; [apply snap_written_meta; assumption|].
+      intros Hn. apply ents_written_meta; [exact Hmw|exact (H8 Hn)].
+Qed.
+
+Lemma good_snap a n rd m :
+  Good a n -> a_phase a = Writing rd WSnap ->
+  apply_snapshot (a_store a) (rd_snapshot rd) = Ok (m, SOk tt) ->
+  Good (with_obs a no_out m (Writing rd (stage1 rd)) (a_applied a)) (set_store_node n m).
+Proof.
+  intros G Eph Ha. rewrite (g_store a n G) in Ha. pose proof (Good_NLI a n G) as HI.
+  pose proof (g_phase a n G) as Hph. unfold phase_ok in Hph. rewrite Eph in Hph.
+  destruct Hph as (H1 & H2 & H3 & H4 & H5 & H6 & H7).
+  destruct (u_snapshot (unst (nlog n))) as [s|] eqn:Es; [|congruence]. rewrite H3 in Ha.
+  destruct (write_snapshot_pres false (nlog n) _ _ HI Es Ha) as (A & _ & C0 & D).
+  pose proof (apply_snapshot_ok_inv _ _ _ (ri_store false _ HI) Ha) as Hfo.
+  pose proof C0 as C1. unfold snap_written in C1. cbn [set_store store unst] in C1. fold (nlog n) in C1. rewrite Es in C1.
+  destruct C1 as (_ & _ & Hf & _).
+  apply good_store; [exact G|exact A| | |].
+  - rewrite Hf, (H6 s eq_refl). lia.
+  - intros rr i t Hin Hs.
+    assert (Hcase : In rr (removelast (rn_records n)) \/ rr = List.last (rn_records n) rr_default).
+    { unfold stage1 in Hin. destruct (rd_entries rd);
+        (destruct (exists_last H1) as (pre & x & Ex); rewrite Ex in *; rewrite removelast_snoc, last_snoc;
+         apply in_app_or in Hin; destruct Hin as [Hin|[Hin|Hin]]; [left; exact Hin|right; symmetry; exact Hin|destruct Hin]). }
+    destruct Hcase as [Hin' | ->].
+    + pose proof (g_recs a n G rr i t) as Hr. unfold recs_done in Hr. rewrite Eph in Hr.
+      specialize (Hr Hin' Hs). unfold nlog in *. lia.
+    + rewrite H5 in Hs. cbn in Hs. inversion Hs; subst. lia.
+  - unfold phase_ok. cbn [a_phase with_obs]. rewrite nlog_set_store. cbn [set_store unst].
+    rewrite Es. splits; auto.
+    unfold stage1. rewrite H2. destruct (u_entries (unst (nlog n))) as [|e0 t0] eqn:Eu.
+    + split; [exact C0|congruence].
+    + split; [exact C0|discriminate].
+Qed.
+
+Lemma good_ents a n rd m :
+  Good a n -> a_phase a = Writing rd WEnts ->
+  append (a_store a) (rd_entries rd) = Ok m ->
+  Good (with_obs a no_out m (Writing rd WDone) (a_applied a)) (set_store_node n m).
+Proof.
+  intros G Eph Ha. rewrite (g_store a n G) in Ha. pose proof (Good_NLI a n G) as HI.
+  pose proof (g_phase a n G) as Hph. unfold phase_ok in Hph. rewrite Eph in Hph.
+  destruct Hph as (H1 & H2 & H3 & H4 & H5 & H6 & Hsw & Hne). rewrite H2 in Ha.
+  assert (Hall : RepInv false (set_store (nlog n) m) /\ first_of m = first_of (store (nlog n))
+                 /\ snap_written (set_store (nlog n) m) /\ ents_written (set_store (nlog n) m)).
+  { destruct (u_snapshot (unst (nlog n))) as [s|] eqn:Es.
+    - destruct (write_entries_after_snapshot_pres false (nlog n) _ _ HI Es Hsw Ha) as (A & _ & C0 & D).
+      pose proof C0 as C1. unfold snap_written in C1. cbn [set_store store unst] in C1. fold (nlog n) in C1. rewrite Es in C1.
+      destruct C1 as (_ & _ & Hf & _).
+      unfold snap_written in Hsw. rewrite Es in Hsw. destruct Hsw as (_ & _ & Hf0 & _).
+      splits; auto; [congruence|].
+      unfold ents_written. cbn [set_store store unst].
+      pose proof (ri_shape false _ HI) as Hsh. fold (nlog n) in Hsh. rewrite Es in Hsh. destruct Hsh as [Ho _].
+      rewrite Hf, Ho. replace (N.to_nat (s_index s + 1 - (s_index s + 1))) with O by lia. exact D.
+    - destruct (store_append_unstable_ok false (nlog n) HI Es) as (st2 & Ha2 & Hr & _ & Hf & Hsk & _).
+      rewrite Ha in Ha2. inversion Ha2; subst st2.
+      splits; auto. unfold snap_written. cbn [set_store unst]. rewrite Es. exact I. }
+  destruct Hall as (A & Hf & C0 & D).
+  apply good_store; [exact G|exact A| | |].
+  - rewrite Hf. exact (g_first a n G).
+  - rewrite Hf. intros rr i t Hin. apply (g_recs a n G rr i t). unfold recs_done. rewrite Eph. exact Hin.
+  - unfold phase_ok. cbn [a_phase with_obs]. rewrite nlog_set_store. cbn [set_store unst].
+    splits; auto.
+Qed.
